@@ -75,6 +75,16 @@ def run_case(case: dict) -> dict:
             except Exception:  # noqa
                 raised = True
             log({"e": "cmd", "who": op["who"], "code": op["code"]}, raised)
+        elif o == "guard":
+            # node guarding switched on / off at the master: what it hears on 0x700 + id means the same
+            try:
+                if op["on"]:
+                    master.start_node_guarding(0.05)
+                else:
+                    master.stop_node_guarding()
+            except Exception:  # noqa
+                raised = True
+            log({"e": "guard", "on": bool(op["on"])}, raised)
         elif o == "inject":
             data = bytearray([op["code"], op["target"]])
             try:
